@@ -185,6 +185,11 @@ DoRelease == \E t \in Thr : ReleaseScope(t)
 DoEnd     == \E t \in Thr, e \in 1..Len(ents) : EndSpan(t, e)
 
 Next == DoRemote \/ DoStart \/ DoWith \/ DoRelease \/ DoEnd
+\* generation by random walks: TLC evaluates "invariants" on EVERY candidate successor, so the walk is
+\* closed by one deterministic step and only that step prints (EmitDone)
+Finish == /\ ops = MaxOps /\ lastop # <<"finish">> /\ lastop' = <<"finish">>
+          /\ UNCHANGED <<bvars, hist>>
+NextGen == Next \/ Finish
 Spec == Init /\ [][Next]_vars
 
 (* ---- the property ------------------------------------------------------ *)
@@ -253,7 +258,7 @@ View == <<ents, stack, nrem, devUsed, lastop>>
 \* ops/nid/actor are functions of the path, not of the abstract state: kept out of the fingerprint
 ViewState == <<ents, stack, nrem, devUsed>>
 EmitAll == (hist # <<>>) => PrintT(<<"BEH", ToJson(hist)>>)
-EmitDeep == (ops = MaxOps) => PrintT(<<"BEH", ToJson(hist)>>)
+EmitDone == (lastop = <<"finish">>) => PrintT(<<"BEH", ToJson(hist)>>)
 W(c) == c => (PrintT(<<"BEH", ToJson(hist)>>) /\ FALSE)
 LastE == ents[Len(ents)]
 IsStart == Len(ents) > 0 /\ LastE.kind # "remote" /\ lastop # <<>> /\ lastop[1] = "start" /\ ls # <<>> /\ ls.e = Len(ents)
